@@ -27,6 +27,7 @@
 
 #include "soplex.h"
 #include "soplex/statistics.h"
+#include "soplex/verifhooks.h"
 
 #define SOPLEX_ALLOWED_UNSCALE_PERCENTAGE    0.1
 #define SOPLEX_MIN_OPT_CALLS_WITH_SCALING     10
@@ -95,6 +96,9 @@ void SoPlexBase<R>::_optimize(volatile bool* interrupt)
 template <class R>
 bool SoPlexBase<R>::_reapplyPersistentScaling() const
 {
+   if(SOPLEX_VERIF_BUGGIFY(SOPLEX_VERIF_SITE_NO_RESCALE))
+      return false;
+
    if((_unscaleCalls > _optimizeCalls * SOPLEX_ALLOWED_UNSCALE_PERCENTAGE)
          && _optimizeCalls > SOPLEX_MIN_OPT_CALLS_WITH_SCALING)
       return false;
@@ -463,6 +467,9 @@ void SoPlexBase<R>::_verifySolutionReal()
    (void) getRowViolation(rowviol, sumviol);
    (void) getDualViolation(dualviol, sumviol);
    (void) getRedCostViolation(redcostviol, sumviol);
+
+   if(SOPLEX_VERIF_BUGGIFY(SOPLEX_VERIF_SITE_VERIFY_FALLBACK))
+      boundviol = _solver.tolerances()->floatingPointFeastol();
 
    if(boundviol >= _solver.tolerances()->floatingPointFeastol()
          || rowviol >= _solver.tolerances()->floatingPointFeastol()
